@@ -388,7 +388,12 @@ func main() {
 	in := flag.String("in", "", "behaviours (ndjson)")
 	out := flag.String("out", "", "trace output (ndjson)")
 	seed := flag.Int64("seed", 1, "seed")
+	scale := flag.Bool("scale", false, "run the real-scale cases (no input)")
 	flag.Parse()
+	if *scale {
+		scaleMain(*out)
+		return
+	}
 	f, err := os.Open(*in)
 	if err != nil {
 		fmt.Fprintln(os.Stderr, err)
